@@ -12,13 +12,24 @@
 (*     RP  n rounds of throw-and-catch in ONE evaluation (site pair x handler placement x        *)
 (*         intermediate try x n, n up to more than the engine's nesting budget)                  *)
 (*     ML  several throw sites in same-named functions of ONE evaluation, each with its location *)
+(*     NB  (sites of TS) more built-ins that run script code: filter / some / every / find /      *)
+(*         findIndex / reduce callbacks, function replacers of replace / replaceAll with a       *)
+(*         string search value, valueOf / toString run by `+`                                    *)
+(*     CT  what raises (7 kinds) in the try block / catch clause / finally block of one try      *)
+(*         statement x what else the clauses contain (calls of log, or variable traffic only)    *)
 (*   Judge: as C05 (MiniJS next to the engine's log and outcome); ShiftJudge: the same program   *)
 (*   rendered k lines lower and k columns to the right reports locations shifted by exactly k.   *)
 EXTENDS C05
 
 \* ======================= family TS ===============================================================
+\* (round 4) sites NB: the other built-ins that run script code.  The script function throws in its first call (MiniJS models
+\* these built-ins up to that call); what differs from forEach / map is the route by which the engine reaches the function
+\* (each built-in has its own call site) and what the built-in would go on to do if it were not abandoned (further elements,
+\* further occurrences of the search string, the rest of the operator).
+NBArrSites == {"filter", "some", "every", "find", "findIndex", "reduce"}
+NBSites == NBArrSites \cup {"replacefn", "replaceallfn", "valueof", "tostring"}
 Sites == {"throwstmt", "throwerr", "nullmember", "undefmember", "callnonfn", "unknownid", "methundef", "masgnull",
-          "cbthrow", "mapthrow", "nestednative", "cbruntime", "getter", "setter", "getterrt", "sortcmp"}
+          "cbthrow", "mapthrow", "nestednative", "cbruntime", "getter", "setter", "getterrt", "sortcmp"} \cup NBSites
 \* body of the function f that contains the throw site (node 1 is the faulting node)
 ThrowingCb(x) == Fun("", <<"x">>, <<SLog(Var("x"))>> \o x)
 SiteBody(st) ==
@@ -44,6 +55,16 @@ SiteBody(st) ==
                             SRet(Mem(Var("u"), EStr("p")))>>
     [] st = "sortcmp" -> <<SLog(EStr("s")), SExpr(Call(Dot(Arr(<<I(3), I(1), I(2)>>), "sort"), <<Fun("", <<"a", "b">>, <<SLog(EStr("cmp")), SThrowAt(1, EStr("no order"))>>)>>)), SRet(I(1))>>
     [] st = "cbruntime" -> <<SVar1("u", NoE), SExpr(Call(Dot(Arr(<<I(1), I(2)>>), "forEach"), <<ThrowingCb(<<SExpr(CallAt(1, Var("u"), <<>>))>>)>>)), SRet(I(1))>>
+    [] st \in NBArrSites -> <<SLog(EStr("s")), SVar1("u", Call(Dot(Arr(<<I(1), I(2), I(3)>>), st),
+                                                               <<ThrowingCb(<<SThrowAt(1, I(8))>>)>> \o (IF st = "reduce" THEN <<I(0)>> ELSE <<>>))),
+                              SLog(EStr("not reached")), SRet(I(1))>>
+    [] st \in {"replacefn", "replaceallfn"} ->
+         <<SLog(EStr("s")), SRet(Plus(Call(Dot(EStr("a-b-c-d"), IF st = "replacefn" THEN "replace" ELSE "replaceAll"),
+                                           <<EStr("-"), ThrowingCb(<<SThrowAt(1, New(Var("RangeError"), <<EStr("r")>>))>>)>>), EStr("!")))>>
+    [] st = "valueof" -> <<SVar1("u", Obj(<<"valueOf">>, <<Fun("", <<>>, <<SLog(EStr("conv")), SThrowAt(1, I(4))>>)>>)), SLog(EStr("s")),
+                           SRet(Plus(I(1), Var("u")))>>
+    [] st = "tostring" -> <<SVar1("u", Obj(<<"a", "toString">>, <<I(1), Fun("", <<>>, <<SLog(EStr("conv")), SThrowAt(1, EStr("ts"))>>)>>)), SLog(EStr("s")),
+                            SRet(Plus(Var("u"), EStr("!")))>>
 \* try statements between the site and the handler (inside f)
 Mids == {"none", "finally", "rethrow", "thrownew", "catchfinally", "finally2", "swallow"}
 Wrap(md, body) ==
@@ -75,7 +96,14 @@ TSProg(c) ==
                                  \o guarded(<<SExpr(Call(Dot(Arr(<<I(1), I(2)>>), "forEach"), <<Fun("", <<"q">>, <<SLog(Plus(Var("q"), I(200)))>> \o use)>>))>>) \o after)
        [] c.h = "none" -> Prog(<<SVar1("x", I(0)), gdef, fdef>> \o use \o after)
 TSAll == [st : Sites, md : Mids, h : Handlers, pl : {"stmt", "left", "right", "arg", "elem", "prop", "cond", "asgsrc", "varinit", "retval"}]
+\* quick, sites NB: every site with every handler placement; with a pending operand below the call and a finally on the way; as an
+\* argument with a rethrowing catch clause on the way
+NBQuickSel(c) ==
+  \/ (c.pl = "stmt" /\ c.md = "none")
+  \/ (c.pl = "left" /\ c.md = "finally" /\ c.h = "caller")
+  \/ (c.pl = "arg" /\ c.md = "rethrow" /\ c.h = "same")
 TSQuickSel(c) ==
+  IF c.st \in NBSites THEN NBQuickSel(c) ELSE
   \/ (c.pl = "stmt" /\ c.md \in {"none", "finally", "rethrow", "catchfinally"})
   \/ (c.pl \in {"left", "arg"} /\ c.md \in {"none", "thrownew", "swallow"} /\ c.h \in {"same", "caller", "native"})
   \/ (c.st \in {"throwstmt", "nullmember", "cbthrow", "getter", "sortcmp"} /\ c.md = "none" /\ c.h \in {"same", "native"})
@@ -432,15 +460,75 @@ MLGridLaw ==
   /\ \A st \in MLSites : (\E c \in MLCases : c.sa = st /\ c.sb = st) /\ (\E c \in MLCases : c.sa = st /\ c.sb # st)
 ASSUME MLGridLaw
 
+\* ======================= family CT: what raises inside the clauses of one try statement ====================
+\* The property speaks of every throw (statement, runtime error, script code run by a built-in, accessor, conversion) and of
+\* every way out of a try statement, "throw from the catch clause" among them.  FO raises with throw statements only and its
+\* clauses call log; here the raise is of every kind and the clauses record what happened either by calling log or by
+\* variable traffic alone (counters and assignments, logged after the fact) - a clause of the second style contains no call,
+\* no member access and no throw statement apart from the raising expression itself.
+\*   pos  : the clause that raises (try block / catch clause / finally block; in the last two the try block throws 1 first)
+\*   kind : how it raises;   sh : try-catch-finally, try-finally, try-catch;   sty : log calls or variable traffic
+\*   h    : handler in the caller, in the same function around the statement, or none
+CTKinds == {"throwstmt", "unknownid", "nullmember", "callnonfn", "getter", "cbthrow", "conv"}
+CTPoss == {"try", "catch", "fin"}
+CTShapes == {"tcf", "tf", "tc"}
+CTStyles == {"log", "vars"}
+CTHandlers == {"caller", "same", "none"}
+CTSite(kd) ==
+  CASE kd = "throwstmt" -> <<SThrow(I(7))>>
+    [] kd = "unknownid" -> <<Set("seen", Var("zz"))>>
+    [] kd = "nullmember" -> <<Set("seen", Dot(Var("nul"), "x"))>>
+    [] kd = "callnonfn" -> <<Set("seen", Call(Var("five"), <<>>))>>
+    [] kd = "getter" -> <<Set("seen", Dot(Var("acc"), "p"))>>
+    [] kd = "cbthrow" -> <<SExpr(Call(Dot(Arr(<<I(1)>>), "forEach"), <<Fun("", <<"v">>, <<SThrow(Plus(Var("v"), I(1000)))>>)>>))>>
+    [] kd = "conv" -> <<Set("seen", Plus(EStr("m"), Var("bad")))>>
+CTNote(sty, tag, cnt) == IF sty = "log" THEN <<SLog(EStr(tag))>> ELSE <<SExpr(Upd("++", FALSE, cnt))>>
+CTProg(c) ==
+  LET site == CTSite(c.kind)
+      tryb == SBlock(CTNote(c.sty, "t", "nt") \o (IF c.pos = "try" THEN site ELSE <<SThrow(I(1))>>))
+      catb == IF c.sh = "tf" THEN NoS
+              ELSE SBlock(CTNote(c.sty, "c", "nc") \o (IF c.sty = "log" THEN <<SLog(Var("e"))>> ELSE <<Set("seen", Var("e"))>>)
+                          \o (IF c.pos = "catch" THEN site ELSE <<>>))
+      finb == IF c.sh = "tc" THEN NoS ELSE SBlock(CTNote(c.sty, "f", "nf") \o (IF c.pos = "fin" THEN site ELSE <<>>))
+      stmt == STry(tryb, "e", catb, finb)
+      catch == SBlock(<<SLog(EStr("H"))>> \o Describe("e9"))
+      fbody == IF c.h = "same" THEN <<STry(SBlock(<<stmt>>), "e9", catch, NoS), SRet(I(5))>> ELSE <<stmt, SRet(I(5))>>
+      use == <<SLog(Plus(I(100), Call(Var("f"), <<>>)))>>
+  IN Prog(<<SVar(<<Decl("seen", I(0)), Decl("nt", I(0)), Decl("nc", I(0)), Decl("nf", I(0)), Decl("nul", ENull), Decl("five", I(5))>>),
+            SVar1("acc", ObjK(<<"p">>, <<"get">>, <<Fun("", <<>>, <<SThrow(I(4))>>)>>)),
+            SVar1("bad", Obj(<<"toString">>, <<Fun("", <<>>, <<SThrow(EStr("ts"))>>)>>)),
+            SFun("f", <<>>, fbody)>>
+          \o (IF c.h = "caller" THEN <<STry(SBlock(use), "e9", catch, NoS)>> ELSE use)
+          \o <<SLog(Var("nt")), SLog(Var("nc")), SLog(Var("nf")), SLog(Var("seen")), SLog(I(50))>>)
+CTAll == [kind : CTKinds, pos : CTPoss, sh : CTShapes, sty : CTStyles, h : CTHandlers]
+CTValid(c) == (c.sh = "tf" => c.pos # "catch") /\ (c.sh = "tc" => c.pos # "fin")
+\* quick: everything with the handler in the caller; the other two placements for two kinds on the full statement
+CTQuickSel(c) == c.h = "caller" \/ (c.kind \in {"throwstmt", "unknownid"} /\ c.sh = "tcf")
+CTSel(c) == CTValid(c) /\ (~Quick \/ CTQuickSel(c))
+CTCases == {c \in CTAll : CTSel(c)}
+CTGridLaw ==
+  /\ \A kd \in CTKinds, ps \in CTPoss, sy \in CTStyles : \E hh \in CTHandlers : CTSel([kind |-> kd, pos |-> ps, sh |-> "tcf", sty |-> sy, h |-> hh])
+  /\ \A kd \in CTKinds, sp \in {<<"tf", "try">>, <<"tf", "fin">>, <<"tc", "try">>, <<"tc", "catch">>} :
+        \E sy \in CTStyles, hh \in CTHandlers : CTSel([kind |-> kd, pos |-> sp[2], sh |-> sp[1], sty |-> sy, h |-> hh])
+  /\ \A hh \in CTHandlers, ps \in CTPoss, sy \in CTStyles : \E kd \in CTKinds : CTSel([kind |-> kd, pos |-> ps, sh |-> "tcf", sty |-> sy, h |-> hh])
+ASSUME CTGridLaw
+\* sites NB of TS: every site at every handler placement, and with an operand pending below the call
+NBGridLaw ==
+  /\ \A st \in NBSites, hh \in Handlers : \E md \in Mids, pl \in {"stmt", "left", "arg"} : (~Quick \/ TSQuickSel([st |-> st, md |-> md, h |-> hh, pl |-> pl]))
+  /\ \A st \in NBSites : \E md \in Mids, hh \in Handlers, pl \in {"left", "arg"} : (~Quick \/ TSQuickSel([st |-> st, md |-> md, h |-> hh, pl |-> pl]))
+ASSUME NBGridLaw
+
 \* ======================= enumeration =================================================================
 C07Prog(cs) == CASE cs.fam = "TS" -> TSProg(cs.c) [] cs.fam = "FO" -> FOProg(cs.c) [] cs.fam = "ER" -> ERProg(cs.c)
                  [] cs.fam = "EL" -> ELProg(cs.c) [] cs.fam = "RP" -> RPProg(cs.c) [] cs.fam = "ML" -> MLProg(cs.c)
+                 [] cs.fam = "CT" -> CTProg(cs.c)
 C07Cases == (IF Has("TS") THEN {[fam |-> "TS", c |-> c] : c \in TSCases} ELSE {})
             \cup (IF Has("FO") THEN {[fam |-> "FO", c |-> c] : c \in FOCases} ELSE {})
             \cup (IF Has("ER") THEN {[fam |-> "ER", c |-> c] : c \in ERCases} ELSE {})
             \cup (IF Has("EL") THEN {[fam |-> "EL", c |-> c] : c \in ELCases} ELSE {})
             \cup (IF Has("RP") THEN {[fam |-> "RP", c |-> c] : c \in RPCases} ELSE {})
             \cup (IF Has("ML") THEN {[fam |-> "ML", c |-> c] : c \in MLCases} ELSE {})
+            \cup (IF Has("CT") THEN {[fam |-> "CT", c |-> c] : c \in CTCases} ELSE {})
 \* the programs of RPMany rounds need more steps than MaxSteps (EnumTerminates: none of them runs into the larger bound).
 \* Enumeration run: every program is run step by step, every state and transition checked, for its first MaxSteps steps (the
 \* bound under which all other programs live: about twenty rounds); beyond that k steps are one transition, the state
